@@ -12,6 +12,11 @@ import RModel.Lemmas.Scan
     hunk (`KeyInjective`; C03's `sort_key_unique` discharges it for the real per-file planner).
   * `stats_order_independent`, `matches_by_variant_order_independent`, `total_matches_is_length`.
   * `scan_shape`: the sort key and the ordered collect as they stand in scanner.rs (generated facts).
+  * the rename list (`plan.paths`): its comparator is NOT total (`rename_order_ties`: equal-depth directories), so the
+    list is determined only together with its input order (`rename_sort_depends_on_input_order`); what holds is
+    `rename_ties_keep_walk_order` (stable sort), `rename_files_sorted`, `rename_dedup_keeps_order`, given the generated
+    facts `rename_list_shape` (stable sort, lists appended in root order, `retain` de-duplication, no pass through a
+    hash container).
 
   Read-only (Part B; the programs are generated from the gate table `Gen/DryRunGates.lean`):
   * `plan_dry_run_gates`, `replace_dry_run_gates`, `rename_dry_run_gates`, `search_is_dry_run`, `plan_gates`,
@@ -81,6 +86,63 @@ theorem scan_shape :
     Gen.ScanShape.sortKey = [.file, .line, .byteOffset] ∧ Gen.ScanShape.sortIsStable = true ∧
     Gen.ScanShape.collectIsOrdered = true ∧ Gen.ScanShape.unorderedSinks = 0 ∧ Gen.ScanShape.perFilePresort = true := by
   decide
+
+-- the rename list ------------------------------------------------------------------------------------
+
+/-- How `plan.paths` is put together, read from rename.rs / scanner.rs on every run: stable per-root sort whose
+    comparator ties on equal-depth directories and orders files by path, per-root lists appended in root order,
+    de-duplication by an order-preserving `retain`, and NO pass of the list through a hash container (which would hand
+    the tied directories to the sort in per-process hash order). -/
+theorem rename_list_shape :
+    Gen.ScanShape.renameSortIsStable = true ∧ Gen.ScanShape.renameOrderTiesOnEqualDepthDirs = true ∧
+    Gen.ScanShape.renameFilesByPath = true ∧ Gen.ScanShape.renamesConcatInRootOrder = true ∧
+    Gen.ScanShape.renameDedupIsRetain = true ∧ Gen.ScanShape.renameListHashOrderedPasses = 0 := by decide
+
+/-- the planner's order on renames is NOT a total order: two different directories of equal depth are `≤` each
+    other — so, unlike the match list, the sorted rename list is determined only together with the order of its input -/
+theorem rename_order_ties :
+    ∃ a b : RenameItem, a ≠ b ∧ renLe a b = true ∧ renLe b a = true :=
+  ⟨⟨true, 2, 0⟩, ⟨true, 2, 1⟩, by decide, by decide, by decide⟩
+
+/-- … and it does depend on it: the same two renames in the other input order come out in the other order (what an
+    unordered container between walk and sort would do from one process to the next) -/
+theorem rename_sort_depends_on_input_order :
+    sortBy renLe [⟨true, 2, 0⟩, ⟨true, 2, 1⟩] ≠ sortBy renLe [⟨true, 2, 1⟩, ⟨true, 2, 0⟩] := by decide
+
+/-- **Ties keep walk order.**  For every input list and every depth `d`, the directories of depth `d` appear in the
+    sorted list in exactly the order in which the walker delivered them (the sort is stable). -/
+theorem rename_ties_keep_walk_order (l : List RenameItem) (d : Nat) :
+    (sortBy renLe l).filter (fun r => r.isDir && r.depth == d) = l.filter (fun r => r.isDir && r.depth == d) := by
+  apply sortBy_filter_class
+  intro a b ha hb
+  simp only [Bool.and_eq_true, beq_iff_eq] at ha hb
+  simp [renLe, ha.1, hb.1, ha.2, hb.2]
+
+/-- files, whose comparator is total (by path), come out sorted whatever the input order: for them the order is
+    independent of the walk -/
+theorem rename_files_sorted (l : List RenameItem) :
+    ((sortBy renLe l).filter (fun r => !r.isDir)).Pairwise (fun a b => a.path ≤ b.path) := by
+  have ord : TotalPreorder renLe := by
+    constructor
+    · intro a b
+      cases ha : a.isDir <;> cases hb : b.isDir <;> simp [renLe, ha, hb] <;> omega
+    · intro a b c
+      cases ha : a.isDir <;> cases hb : b.isDir <;> cases hc : c.isDir <;> simp [renLe, ha, hb, hc] <;> omega
+  have hs := sortBy_sorted ord l
+  have hf := hs.filter (fun r => !r.isDir)
+  refine hf.imp_of_mem ?_
+  intro a b ha hb hab
+  simp only [List.mem_filter, Bool.not_eq_true'] at ha hb
+  simpa [renLe, ha.2, hb.2] using hab
+
+/-- the de-duplication across roots never reorders: `plan.paths` is a sublist of the concatenation of the sorted
+    per-root lists, so it is a function of the roots' order and each root's walk order and nothing else -/
+theorem rename_dedup_keeps_order (perRootWalk : List (List RenameItem)) :
+    (planRenames perRootWalk).Sublist ((perRootWalk.map (sortBy renLe)).flatten) :=
+  dedupAux_sublist _ _ []
+
+example : planRenames [[⟨false, 2, 7⟩, ⟨true, 1, 3⟩, ⟨true, 1, 2⟩], [⟨true, 1, 2⟩, ⟨true, 2, 9⟩]] =
+    [⟨true, 1, 3⟩, ⟨true, 1, 2⟩, ⟨false, 2, 7⟩, ⟨true, 2, 9⟩] := by decide
 
 -- a concrete instance: files are numbers, ordered by ≤ ---------------------------------------------------
 
